@@ -192,6 +192,7 @@ def run_contract_path(c, reg, ctx):
     for p, d in zip(a.kwonlyargs, a.kw_defaults):
         if p.arg not in body_fr.locals and d is not None:
             body_fr.locals[p.arg] = it.eval(d, Frame(None, fd.module))
+    it.root_frame = body_fr
     post_fr = Frame(fd, fd.module, selfobj, body_fr)   # parameters as given; falls through to the body's final locals
     post_fr.locals = dict(fr.locals)
     is_input = False
@@ -266,7 +267,52 @@ def run_contract_path(c, reg, ctx):
     return pr
 
 
+def mutable_identity(it, v):
+    """the python wrapper that carries the identity of a mutable container value (None for immutables)"""
+    try:
+        v = it.force(v)
+    except Exception:
+        return None
+    if isinstance(v, VOpt):
+        v = v.inner
+    if isinstance(v, VTuple):
+        return None
+    if isinstance(v, (VList, VSeq, VSet, VDict, VMap)):
+        return v
+    return None
+
+
+def check_no_new_alias(it, key, old, selfobj):
+    """Contracts describe each field on its own (separation of distinct field names is the frame
+    assumption of every contract); so no method may leave two fields of self holding ONE mutable
+    container unless they already did at entry.  Container wrappers have python identity here because
+    control flow is concrete on a path."""
+    if selfobj is None:
+        return
+    seen = {}
+    shared = []
+    n = 0
+    for f in sorted(selfobj.fields):
+        m = mutable_identity(it, selfobj.fields[f])
+        if m is None:
+            continue
+        n += 1
+        g = seen.get(id(m))
+        if g is None:
+            seen[id(m)] = f
+        else:
+            shared.append((g, f))
+    if n < 2:
+        return
+    # the pre-state is built field by field (never aliased), so any sharing found here was introduced by the body
+    it.ctx.prove(z3.BoolVal(not shared), f"{key}.frame.no-aliasing",
+                 {"kind": "frame", "definite": True,
+                  "src": "no two fields of self hold one and the same mutable container after the call"
+                         + (f" (shared: {shared})" if shared else "")})
+
+
 def check_frame(it, c, key, old, selfobj):
+    check_no_new_alias(it, key, old, selfobj)
     if selfobj is None or c.self_fields is None:
         return
     oldself = old.selfobj
